@@ -4,7 +4,9 @@
 // files are located through the real TOC / returned references and printed (T2: the Lean encoder must
 // produce identical bytes), everything is read back through index.NewReader / chunks.NewDirReader /
 // tsdb.OpenBlock + ChunkQuerier (T3), and single bytes of the files are altered one at a time (fault
-// sweep: error or exactly the original data).
+// sweep: error or exactly the original data).  A directed family of blocks (genDirectedCase) puts the
+// number of distinct values of a label name on either side of a multiple of symbolFactor and reads
+// everything that walks the reader's sampled postings offset table.
 package main
 
 import (
@@ -260,6 +262,80 @@ func readLabelNames(ir *index.Reader) string {
 		return "err"
 	}
 	return "ok " + hexList(ns)
+}
+
+func expand(ps index.Postings) string {
+	rs, err := index.ExpandPostings(ps)
+	if err != nil {
+		return "err"
+	}
+	return "ok " + refList(rs)
+}
+
+// readPostingsMulti: Reader.Postings(name, values...) — the caller's slice is sorted in place, a copy is passed.
+func readPostingsMulti(ir *index.Reader, name string, values []string) (out string) {
+	p, v := h.Try(func() {
+		ps, err := ir.Postings(context.Background(), name, append([]string(nil), values...)...)
+		if err != nil {
+			out = "err"
+			return
+		}
+		out = expand(ps)
+	})
+	if p {
+		return fmt.Sprintf("panic %T", v)
+	}
+	return out
+}
+
+// readPostingsAll: Reader.PostingsForAllLabelValues(name).
+func readPostingsAll(ir *index.Reader, name string) (out string) {
+	p, v := h.Try(func() { out = expand(ir.PostingsForAllLabelValues(context.Background(), name)) })
+	if p {
+		return fmt.Sprintf("panic %T", v)
+	}
+	return out
+}
+
+// matchFn is the serialisable family of value predicates used with PostingsForLabelMatching:
+// byte-wise comparison of the label value with a fixed string.
+func matchFn(kind, arg string) func(string) bool {
+	switch kind {
+	case "ge":
+		return func(v string) bool { return v >= arg }
+	case "lt":
+		return func(v string) bool { return v < arg }
+	case "eq":
+		return func(v string) bool { return v == arg }
+	case "ne":
+		return func(v string) bool { return v != arg }
+	}
+	return nil
+}
+
+// readPostingsMatching: Reader.PostingsForLabelMatching(name, match).
+func readPostingsMatching(ir *index.Reader, name string, match func(string) bool) (out string) {
+	p, v := h.Try(func() { out = expand(ir.PostingsForLabelMatching(context.Background(), name, match)) })
+	if p {
+		return fmt.Sprintf("panic %T", v)
+	}
+	return out
+}
+
+// parseHexList is the inverse of hexList ("-" = no element, "e" = the empty string).
+func parseHexList(s string) []string {
+	if s == "-" {
+		return nil
+	}
+	var out []string
+	for _, p := range strings.Split(s, ",") {
+		if p == "e" {
+			out = append(out, "")
+		} else {
+			out = append(out, string(h.UnHex(p)))
+		}
+	}
+	return out
 }
 
 // readEverything lists every read that is not a Series(id): symbols, names, values, postings.
@@ -619,6 +695,25 @@ func (e *env) exec(op string) string {
 			return "bad-op"
 		}
 		return readPostings(e.ir, string(h.UnHex(f[1])), string(h.UnHex(f[2])))
+	case "rpostm": // rpostm <namehex> <valuehex,…|->: Postings(name, values...)
+		if e.ir == nil || len(f) != 3 {
+			return "bad-op"
+		}
+		return readPostingsMulti(e.ir, string(h.UnHex(f[1])), parseHexList(f[2]))
+	case "rpall": // rpall <namehex>: PostingsForAllLabelValues(name)
+		if e.ir == nil || len(f) != 2 {
+			return "bad-op"
+		}
+		return readPostingsAll(e.ir, string(h.UnHex(f[1])))
+	case "rpm": // rpm <namehex> <ge|lt|eq|ne> <arghex>: PostingsForLabelMatching(name, value <kind> arg)
+		if e.ir == nil || len(f) != 4 {
+			return "bad-op"
+		}
+		m := matchFn(f[2], string(h.UnHex(f[3])))
+		if m == nil {
+			return "bad-op"
+		}
+		return readPostingsMatching(e.ir, string(h.UnHex(f[1])), m)
 	case "rlv":
 		if e.ir == nil || len(f) != 2 {
 			return "bad-op"
@@ -1327,6 +1422,192 @@ func genCase(c *h.Ctx, id string, thorough, forceMany bool) {
 	c.NonTrivial(key + fmt.Sprintf(" nser=%d nchk=%d", len(e.ids), total))
 }
 
+// ---- directed family: label names with a number of distinct values on either side of a multiple of
+// symbolFactor (32).  newReader keeps only every 32nd entry of the postings offset table per label name
+// plus the last one; which entry is "the last one" depends on the value count modulo 32 and on whether
+// another label name follows in the table.  Every read that walks the sampled table is listed for every
+// name / value: LabelValues, LabelNames, Postings (one value, several values), PostingsForAllLabelValues,
+// PostingsForLabelMatching.
+
+type dlabel struct {
+	name   string
+	n      int  // number of distinct values
+	style  int  // 0: "%02d"; 1: one byte 0x30+k; 2: "" first, then "%02d"
+	sparse bool // absent from every 5th series (only for labels that do not carry the largest count)
+}
+
+func dval(style, k int) string {
+	switch style {
+	case 1:
+		return string([]byte{byte(0x30 + k)})
+	case 2:
+		if k == 0 {
+			return ""
+		}
+	}
+	return fmt.Sprintf("%02d", k)
+}
+
+var (
+	dFirst  = []string{"__name__", "a", "b"}
+	dMiddle = []string{"j", "job", "le"}
+	dLast   = []string{"z", "é", "名前"}
+)
+
+// dspec: value counts at the three name positions (0 = no label there).
+type dspec struct{ first, middle, last int }
+
+func (s dspec) String() string { return fmt.Sprintf("%d/%d/%d", s.first, s.middle, s.last) }
+
+func directedSpecs(thorough bool) []dspec {
+	if !thorough {
+		return []dspec{
+			{33, 2, 0},  // 32+1 values, another name follows
+			{1, 65, 3},  // 64+1 values in the middle
+			{32, 64, 1}, // exact multiples, two such names in one block
+			{2, 33, 65}, // 33 followed by a name, 65 not followed by anything
+		}
+	}
+	var out []dspec
+	for _, v := range []int{31, 32, 33, 34, 63, 64, 65, 66, 96, 97} {
+		out = append(out, dspec{v, 2, 0}, dspec{1, v, 3}, dspec{2, 1, v}, dspec{v, 0, 0})
+	}
+	// two boundary names in one block: adjacent, separated, first/last
+	out = append(out,
+		dspec{33, 65, 1}, dspec{65, 33, 0}, dspec{33, 33, 33}, dspec{32, 33, 2}, dspec{33, 32, 2},
+		dspec{97, 1, 33}, dspec{1, 64, 65}, dspec{65, 65, 0}, dspec{31, 2, 97}, dspec{96, 97, 1},
+		dspec{34, 66, 3}, dspec{33, 1, 1}, dspec{1, 1, 33}, dspec{64, 33, 65})
+	return out
+}
+
+func genDirectedCase(c *h.Ctx, r *h.Rng, id string, sp dspec) {
+	c.Case(id)
+	e := &env{c: c, dir: h.TempDir("verif-block-")}
+	defer e.close()
+	var lbs []dlabel
+	n := 0
+	for i, cnt := range []int{sp.first, sp.middle, sp.last} {
+		if cnt == 0 {
+			continue
+		}
+		nm := h.Pick(r, [][]string{dFirst, dMiddle, dLast}[i])
+		lbs = append(lbs, dlabel{name: nm, n: cnt, style: r.Intn(3)})
+		if cnt > n {
+			n = cnt
+		}
+	}
+	for i := range lbs {
+		lbs[i].sparse = lbs[i].n < n && lbs[i].n <= 3 && r.Chance(30)
+	}
+	var lsets []lset
+	for i := 0; i < n; i++ {
+		var l lset
+		for _, d := range lbs {
+			if d.sparse && i%5 == 4 {
+				continue
+			}
+			l = append(l, d.name, dval(d.style, i%d.n))
+		}
+		lsets = append(lsets, l)
+	}
+	sort.Slice(lsets, func(i, j int) bool { return cmpLset(lsets[i], lsets[j]) < 0 })
+
+	e.op("iw")
+	symset := map[string]bool{}
+	for _, l := range lsets {
+		for _, s := range l {
+			symset[s] = true
+		}
+	}
+	if r.Bool() {
+		symset["~unused"] = true
+	}
+	var syms []string
+	for s := range symset {
+		syms = append(syms, s)
+	}
+	sort.Strings(syms)
+	for _, s := range syms {
+		e.op("sym " + h.HexS(s))
+	}
+	sref := uint64(r.Intn(3))
+	ref := uint64(r.Intn(100))
+	for _, l := range lsets {
+		chks := "-"
+		if r.Chance(30) {
+			t := genTimes(r, 1)
+			ref += uint64(r.Intn(5000))
+			chks = fmt.Sprintf("%d:%d:%d", t[0], t[1], ref)
+		}
+		o := e.op(fmt.Sprintf("ser %d %s %s", sref, lsetStr(l), chks))
+		c.Count("ser:" + o)
+		sref += uint64(r.Intn(3))
+	}
+	o := e.op("iclose")
+	if !strings.HasPrefix(o, "ok") {
+		c.Count("iclose:" + o)
+		return
+	}
+	e.op("ifile")
+	e.op("rsyms")
+	for k := 0; k <= len(e.ids); k++ {
+		e.op(fmt.Sprintf("rser %d", k))
+	}
+	e.op("rln")
+	e.op("rpost - -")
+	e.op("rlv -")
+	e.op("rpall -")
+	e.op("rpostm - e")
+	for _, d := range lbs {
+		nh := h.HexS(d.name)
+		set := map[string]bool{}
+		for _, l := range lsets {
+			for i := 0; i+1 < len(l); i += 2 {
+				if l[i] == d.name {
+					set[l[i+1]] = true
+				}
+			}
+		}
+		var vals []string
+		for v := range set {
+			vals = append(vals, v)
+		}
+		sort.Strings(vals)
+		c.Count(fmt.Sprintf("directed-values:%d", len(vals)))
+		e.op("rlv " + nh)
+		e.op("rpall " + nh)
+		for _, v := range vals { // every value, in particular the last and the second-to-last one
+			e.op("rpost " + nh + " " + h.HexS(v))
+		}
+		last := vals[len(vals)-1]
+		prev := vals[(len(vals)+len(vals)-2)%len(vals)]
+		at := func(k int) string { return vals[k%len(vals)] }
+		for _, m := range [][2]string{
+			{"ge", last}, {"ge", prev}, {"eq", last}, {"eq", prev}, {"ne", last}, {"ne", prev}, {"lt", last},
+			{"ge", vals[0]}, {"lt", vals[0]}, {"ge", at(31)}, {"ge", at(32)}, {"lt", at(33)},
+			{"ge", h.Pick(r, vals)}, {"lt", h.Pick(r, vals)}, {"eq", "no-such-value"}, {"ge", last + "\x00"},
+		} {
+			e.op("rpm " + nh + " " + m[0] + " " + h.HexS(m[1]))
+		}
+		var rnd []string
+		for k := 0; k < 5; k++ {
+			rnd = append(rnd, h.Pick(r, vals))
+		}
+		for _, vs := range [][]string{
+			{last}, {prev, last}, {last, prev}, {vals[0], last}, {at(30), at(31), at(32), at(33)}, {at(63), at(64), at(65)},
+			rnd, vals, {"!before-all", last}, {last, "~past-the-end"}, {"~past-the-end"}, {prev, "no-such-value", last}, {last, last}, {},
+		} {
+			e.op("rpostm " + nh + " " + hexList(vs))
+		}
+	}
+	e.op("rlv " + h.HexS("no-such-name"))
+	e.op("rpall " + h.HexS("no-such-name"))
+	e.op("rpm " + h.HexS("no-such-name") + " ge -")
+	e.op("rpostm " + h.HexS("no-such-name") + " " + hexList([]string{"00"}))
+	c.Count("directed:" + sp.String())
+	c.NonTrivial("directed " + sp.String())
+}
+
 var kinds = []string{"b0", "b7", "z"}
 
 func outcome(o string) string {
@@ -1552,6 +1833,12 @@ func main() {
 			// every 8th case is a block with 30-75 series: more than symbolFactor symbols / label values
 			genCase(c, fmt.Sprintf("b%d-%d", c.Seed, i), c.Tier == "thorough", i%8 == 5)
 		}
+	}
+	// directed blocks around the symbolFactor boundaries: a PRNG stream of their own, the cases above
+	// are the same with and without them
+	dr := h.NewRng(c.Seed*0x9e3779b97f4a7c15 + 24)
+	for i, sp := range directedSpecs(c.Tier == "thorough") {
+		genDirectedCase(c, dr, fmt.Sprintf("d%d-%d", c.Seed, i), sp)
 	}
 	c.Finish()
 }
